@@ -14,6 +14,7 @@ import (
 	"bytes"
 	"encoding/binary"
 	"fmt"
+	"runtime"
 	"strings"
 	"sync"
 	"sync/atomic"
@@ -45,11 +46,24 @@ type scenario struct {
 	closeAt   int
 	bigEvery  int
 	dlc       bool
+	allAsync  bool
 }
 
 func (s scenario) text() string {
 	return fmt.Sprintf("senders=%d per=%d delay=%s fail=%s@%d close=%s@%d big=%d dlc=%v", s.senders, s.perSender, s.delay, s.fail, s.failAt,
 		s.closeMode, s.closeAt, s.bigEvery, s.dlc)
+}
+
+// fields is the replayable form of a scenario (the goroutine schedule is not part of it)
+func (s scenario) fields() string {
+	return fmt.Sprintf("senders=%d per=%d delayus=%d fail=%s failat=%d close=%s closeat=%d big=%d dlc=%s allasync=%s", s.senders, s.perSender,
+		s.delay.Microseconds(), s.fail, s.failAt, s.closeMode, s.closeAt, s.bigEvery, hx.B01(s.dlc), hx.B01(s.allAsync))
+}
+
+func parseScenario(f []string) scenario {
+	return scenario{senders: hx.Atoi(kv(f, "senders")), perSender: hx.Atoi(kv(f, "per")), delay: time.Duration(hx.Atoi(kv(f, "delayus"))) * time.Microsecond,
+		fail: kv(f, "fail"), failAt: hx.Atoi(kv(f, "failat")), closeMode: kv(f, "close"), closeAt: hx.Atoi(kv(f, "closeat")),
+		bigEvery: hx.Atoi(kv(f, "big")), dlc: kv(f, "dlc") == "1", allAsync: kv(f, "allasync") == "1"}
 }
 
 func senderPacket(id, seq, pad int) *packet.Publish {
@@ -84,6 +98,7 @@ func (x *c03) concurrent(sc scenario) {
 	n := x.n
 	c := x.c
 	r := c.Rng
+	c.Emit("case %d conc %s", n, sc.fields())
 	m := newMemCarrier()
 	m.blockAtEnd = true
 	m.dlClosedFail = sc.dlc
@@ -113,7 +128,7 @@ func (x *c03) concurrent(sc scenario) {
 		conn.SetReadTimeout(3 * time.Millisecond)
 	}
 
-	var closeStarted int32
+	var closeStarted, closeReturned int32
 	var accepted int32
 	var panics int32
 	closeNow := make(chan struct{})
@@ -197,8 +212,12 @@ func (x *c03) concurrent(sc scenario) {
 			case <-sendersDone:
 			}
 			atomic.StoreInt32(&closeStarted, 1)
+			if sc.fail == "flush" {
+				m.failWrites() // the flush inside Close hits a dead carrier
+			}
 			closeErr = conn.Close()
 			closed = true
+			atomic.StoreInt32(&closeReturned, 1)
 		})
 	}
 	// senders done -> the closer may go (the trigger may never come)
@@ -209,6 +228,9 @@ func (x *c03) concurrent(sc scenario) {
 
 	hung := !call(wg.Wait)
 	if hung {
+		if atomic.LoadInt32(&closeReturned) == 1 && m.closeCalls() == 0 {
+			c.Emit("direct c19_close_closes_carrier %d FAIL Close returned without calling carrier.Close, a pending Receive stays blocked: %s", n, sc.text())
+		}
 		c.Emit("direct c19_nohang %d FAIL a Send/Receive/Close did not return within %s: %s", n, hangLimit, sc.text())
 		c.Stat("conc_scenarios", 1)
 		return
@@ -223,6 +245,14 @@ func (x *c03) concurrent(sc scenario) {
 	// ---- after close / after an error
 	dead := closed || recvErr != nil
 	msg := ""
+	if closed {
+		if m.closeCalls() == 0 {
+			c.Emit("direct c19_close_closes_carrier %d FAIL Close returned %v without calling carrier.Close: %s", n, closeErr, sc.text())
+		} else {
+			c.Emit("direct c19_close_closes_carrier %d ok", n)
+		}
+		c.Stat("close_closes_carrier_checks", 1)
+	}
 	if dead {
 		if sc.closeMode == "never" {
 			// the connection died by a receive error / deadline expiry: the carrier must have been closed
@@ -237,7 +267,7 @@ func (x *c03) concurrent(sc scenario) {
 			msg = "flushed Send after close returned nil"
 		}
 		ok = ok && call(func() { e2 = conn.Send(p, true) })
-		if ok && e2 == nil && sc.delay > 0 {
+		if ok && e2 == nil && sc.delay > 0 && sc.delay <= 50*time.Millisecond {
 			// accepted into the buffer: once the flush delay has elapsed the next Send must fail
 			time.Sleep(sc.delay + 4*time.Millisecond)
 			m.waitTimer(20 * time.Millisecond)
@@ -249,6 +279,8 @@ func (x *c03) concurrent(sc scenario) {
 			if ok && e4 == nil {
 				msg = "second buffered Send after the failed flush was accepted"
 			}
+		} else if ok && e2 == nil && sc.delay > 50*time.Millisecond {
+			// not waited for
 		} else if ok && e2 == nil && sc.delay == 0 {
 			msg = "Send with zero delay after close returned nil"
 		}
@@ -301,7 +333,12 @@ func (x *c03) concurrent(sc scenario) {
 	}
 
 	// ---- the wire
-	wire := bytes.Join(m.snapshotWrites(), nil)
+	writes := m.snapshotWrites()
+	wire := bytes.Join(writes, nil)
+	var wsizes []int
+	for _, w := range writes {
+		wsizes = append(wsizes, len(w))
+	}
 	bySend := map[string]*sendRec{}
 	for id := range recs {
 		for _, rec := range recs[id] {
@@ -390,14 +427,125 @@ func (x *c03) concurrent(sc scenario) {
 		}
 		c.Stat("close_flushes_checks", 1)
 	}
-	c.Emit("case %d wire stream=%s", n, hx.Hx(wire))
-	c.Emit("impl %d frames=%d partial=%d", n, frames, partial)
+	c.Emit("case %dw wire stream=%s cuts=%s", n, hx.Hx(wire), sizesText(wsizes))
+	c.Emit("impl %dw frames=%d partial=%d", n, frames, partial)
 	c.Stat("conc_scenarios", 1)
 	c.Stat("conc_frames", frames)
 	c.Stat("conc_fail_"+sc.fail, 1)
 	if n%37 == 0 {
 		c.Sample("concurrent " + sc.text() + fmt.Sprintf(" -> %d frames on the wire, close=%v", frames, closeErr))
 	}
+}
+
+func publishFill(topic string, fill byte, total int) *packet.Publish {
+	for pl := total; pl >= 0; pl-- {
+		p := packet.NewPublish()
+		p.Message.Topic = topic
+		p.Message.Payload = bytes.Repeat([]byte{fill}, pl)
+		if p.Len() <= total {
+			return p
+		}
+	}
+	panic("no such publish")
+}
+
+// gatedIntact: bytes on their way to the carrier must not change.  The carrier's Write for one
+// large packet A is held at a gate; meanwhile the same connection receives a different large
+// packet B and another connection sends C (all of them draw on the shared buffer pool);
+// then the gate opens.  Every wire must be byte-identical to the encoding that was sent.
+func (x *c03) gatedIntact() {
+	c := x.c
+	r := c.Rng
+	old := runtime.GOMAXPROCS(1) // one P: the goroutines share one sync.Pool slot, as under load
+	defer runtime.GOMAXPROCS(old)
+	sizes := []int{4097, 5000, 8192, 20000, 4100, 6000}
+	for round := 0; round < 12; round++ {
+		x.n++
+		n := x.n
+		c.Emit("case %d gated round=%d", n, round)
+		size := sizes[round%len(sizes)]
+		bigA := publishFill("out", 'A', size)
+		bigB := publishFill("inc", 'B', size-r.Intn(40))
+		bigC := publishFill("oth", 'C', size-r.Intn(40))
+		mA := newMemCarrier()
+		mA.blockAtEnd = true
+		inB := encode(bigB)
+		mA.chunks = cut(inB, randomSizes(r, len(inB), 3000))
+		gate := make(chan struct{})
+		reached := make(chan struct{})
+		var once sync.Once
+		mA.hook = func(call string, k int) {
+			if call == "write" && k == 1 {
+				once.Do(func() { close(reached) })
+				<-gate
+			}
+		}
+		connA := transport.NewBaseConn(mA)
+		mC := newMemCarrier()
+		connC := transport.NewBaseConn(mC)
+		var sendErr error
+		done := make(chan struct{})
+		go func() {
+			sendErr = connA.Send(bigA, round%3 == 2) // mostly flushed; a buffered one overflows the 4096-byte buffer just the same
+			close(done)
+		}()
+		msg := ""
+		select {
+		case <-reached:
+		case <-time.After(hangLimit):
+			msg = "the carrier write of the large packet never started"
+		}
+		var got packet.Generic
+		var rerr, cerr error
+		if msg == "" {
+			if !call(func() { got, rerr = connA.Receive() }) {
+				msg = "Receive blocked while a Send was in the carrier"
+			}
+			if !call(func() { cerr = connC.Send(bigC, false) }) {
+				msg = "Send on another connection blocked"
+			}
+		}
+		close(gate)
+		select {
+		case <-done:
+		case <-time.After(hangLimit):
+			msg = "Send did not return after the carrier write was released"
+		}
+		if msg == "" {
+			wireA := bytes.Join(mA.snapshotWrites(), nil)
+			wireC := bytes.Join(mC.snapshotWrites(), nil)
+			switch {
+			case sendErr != nil || rerr != nil || cerr != nil:
+				msg = fmt.Sprintf("errors: send %v, receive %v, other send %v", sendErr, rerr, cerr)
+			case !bytes.Equal(wireA, encode(bigA)):
+				msg = fmt.Sprintf("the %d bytes written for the packet differ from its encoding at byte %d (wire has %q there, encoding %q)",
+					len(wireA), firstDiff(wireA, encode(bigA)), around(wireA, firstDiff(wireA, encode(bigA))), around(encode(bigA), firstDiff(wireA, encode(bigA))))
+			case got == nil || hx.PktText(got) != hx.PktText(bigB):
+				msg = "the packet received meanwhile is not the one the peer sent"
+			case !bytes.Equal(wireC, encode(bigC)):
+				msg = "the bytes written on the other connection differ from that packet's encoding"
+			}
+		}
+		if msg != "" {
+			c.Emit("direct c19_intact %d FAIL (packet of %d bytes held in the carrier while %d bytes were received) %s", n, size, len(inB), msg)
+		} else {
+			c.Emit("direct c19_intact %d ok", n)
+		}
+		c.Stat("intact_checks", 1)
+		_ = call(func() { _ = connA.Close() })
+		_ = call(func() { _ = connC.Close() })
+	}
+}
+
+func around(b []byte, i int) string {
+	j := i + 8
+	if j > len(b) {
+		j = len(b)
+	}
+	if i > len(b) {
+		i = len(b)
+	}
+	return string(b[i:j])
 }
 
 func topicID(frame []byte) int {
@@ -416,7 +564,7 @@ func (x *c03) concurrentCases() {
 		n = 2500
 	}
 	delays := []time.Duration{0, time.Millisecond, time.Millisecond, 5 * time.Millisecond, 50 * time.Millisecond}
-	fails := []string{"none", "none", "none", "write", "read", "close", "deadline", "expiry"}
+	fails := []string{"none", "none", "none", "write", "read", "close", "deadline", "expiry", "flush"}
 	for i := 0; i < n; i++ {
 		sc := scenario{senders: 1 + r.Intn(16), perSender: 1 + r.Intn(12), delay: delays[r.Intn(len(delays))], fail: fails[r.Intn(len(fails))],
 			failAt: r.Intn(6), dlc: r.Intn(3) != 0}
@@ -437,6 +585,13 @@ func (x *c03) concurrentCases() {
 		if sc.fail == "expiry" || (sc.fail == "read" && r.Intn(2) == 0) {
 			sc.closeMode = "never"
 		}
+		if sc.fail == "flush" {
+			// everything buffered, no timer firing before Close: the failure is met by Close's own flush
+			sc.delay = 200 * time.Millisecond
+			sc.allAsync = true
+			sc.bigEvery = 0
+			sc.closeMode, sc.closeAt = "at-count", total
+		}
 		if r.Intn(3) == 0 {
 			sc.bigEvery = 2 + r.Intn(6)
 		}
@@ -451,6 +606,7 @@ func runC19(c *hx.Ctx) {
 		return
 	}
 	x.closeScripts()
+	x.gatedIntact()
 	x.concurrentCases()
 	if c.Thorough() {
 		x.loopbackC19(60)
@@ -463,6 +619,28 @@ func runC19(c *hx.Ctx) {
 func (x *c03) closeScripts() {
 	c := x.c
 	r := c.Rng
+	// the flush inside Close fails (carrier write fault), resp. the timer flush failed before Close:
+	// Close must still close the carrier, later receives and sends fail
+	for k := 1; k <= 3; k++ {
+		for _, timerFirst := range []bool{false, true} {
+			for _, dlc := range []bool{true, false} {
+				ps := []packet.Generic{x.randPacket(false), x.randPacket(false)}
+				in := concatPackets(ps)
+				s := connScript{wleft: -1, dlleft: -1, dlc: dlc, inend: "eof", in: in, cuts: oneChunk(len(in))}
+				s.ops = append(s.ops, sop{kind: 'R'})
+				for i := 0; i < k; i++ {
+					s.ops = append(s.ops, sop{kind: 'S', who: i, pkt: x.randPacket(false), async: true})
+				}
+				s.ops = append(s.ops, sop{kind: 'X'})
+				if timerFirst {
+					s.ops = append(s.ops, sop{kind: 'T'})
+				}
+				s.ops = append(s.ops, sop{kind: 'C'}, sop{kind: 'R'}, sop{kind: 'R'}, sop{kind: 'S', pkt: x.randPacket(false), async: true},
+					sop{kind: 'S', pkt: x.randPacket(false), async: false}, sop{kind: 'C'})
+				x.connCase(s)
+			}
+		}
+	}
 	n := 300
 	if c.Thorough() {
 		n = 3000
